@@ -22,9 +22,9 @@ func init() {
 			"the innovation record is observed through the InnovationStored hook and VerifState"},
 		Cases: func(tier string) int {
 			if tier == "quick" {
-				return 96
+				return 384
 			}
-			return 1200
+			return 2400
 		},
 		Run:      runC03,
 		Required: []string{"epochs", "innovations.link", "innovations.node", "reuse.link", "reuse.node", "epochs.parallel"},
@@ -45,6 +45,10 @@ func runC03(c *Ctx, idx int) {
 		sc.Opts.BabiesStolen = sc.Opts.PopSize / 2
 	}
 	sc.Parallel = idx%4 == 3
+	if idx%3 == 1 {
+		// evolve -> Population.Write -> ReadPopulation -> evolve on: the reader initialises the counters from a heterogeneous population
+		sc.RestoreAt = 3 + r.Intn(sc.Epochs-4)
+	}
 	mon := &innovMonitor{links: map[int64]linkKey{}, roles: map[int]byte{}}
 	runScenario(c, sc, mon)
 }
